@@ -193,6 +193,19 @@ func runSeq(cs *Case, or seqOracles) (w *World) {
 				}
 			}
 		case "createcol":
+			if st.Arg == 1 {
+				// the name is taken: the call is refused and the existing column stays as it is
+				if _, taken := w.model.Col(st.Col.Name); taken || st.Col.Name == "expire" {
+					if err := w.primary.CreateColumn(st.Col.Name, makeColumn(*st.Col)); err == nil {
+						w.fail(violation("schema", "CreateColumn(%q) over an existing column returned nil", st.Col.Name))
+					}
+					if twin != nil {
+						twin.primary.CreateColumn(st.Col.Name, makeColumn(*st.Col))
+					}
+					w.stats.probe("create-column-refused-name-taken")
+				}
+				break
+			}
 			if err := w.primary.CreateColumn(st.Col.Name, makeColumn(*st.Col)); err != nil {
 				w.fail(violation("schema", "CreateColumn(%q): %v", st.Col.Name, err))
 			}
